@@ -1,4 +1,4 @@
-"""C14 -- rope's view of source text agrees with the tokenizer (RCA rules R14.1-R14.18)."""
+"""C14 -- rope's view of source text agrees with the tokenizer (RCA rules R14.1-R14.19)."""
 from __future__ import annotations
 
 import ast
